@@ -56,12 +56,23 @@ func alertStatusReportRule(o *Ob) {
 		for _, f := range []string{"SilencedBy", "InhibitedBy"} {
 			isSt := map[ssa.Instruction]bool{}
 			for _, st := range e.StoresToField(fn, "am/alert.AlertStatus", f) {
-				v := e.X(fn, st.Val)
-				if strings.Contains(v, src) {
-					o.Check(v == "slices.Clone("+src+"."+f+")" || v == src+"."+f, "marker-status-field|"+f, "Status must report the ids filed as "+f+", reports "+v, st)
-					isSt[st] = true
-				} else {
-					o.Check(strings.HasPrefix(v, "slice(&slicelit:[0]string") || v == "nil" || strings.HasPrefix(v, "makeslice:"), "marker-status-default|"+f, "without filed ids Status must report an empty list, reports "+v, st)
+				// every alternative of what is stored: the filed ids (or a copy), or an empty list when there are none
+				none := LRe(`\(`+regexpQuote(src+"."+f)+` == nil\)|\(len\(`+regexpQuote(src+"."+f)+`\) == 0\)`, true)
+				alts := AltsOf(st.Val)
+				for _, a := range alts {
+					v := e.X(fn, a.V)
+					switch {
+					case v == "slices.Clone("+src+"."+f+")" || v == src+"."+f || v == "acc(nil; "+src+"."+f+"...)":
+						isSt[st] = true
+					case strings.Contains(v, src):
+						o.Fail("marker-status-field|"+f, "Status must report the ids filed as "+f+", reports "+clip(v), st)
+					default:
+						empty := strings.HasPrefix(v, "slice(&slicelit:[0]string") || v == "nil" || strings.HasPrefix(v, "makeslice:")
+						o.Check(empty, "marker-status-default|"+f, "without filed ids Status must report an empty list, reports "+clip(v), st)
+						if len(alts) > 1 {
+							o.Check(e.AltUnder(a, none), "marker-status-default-guard|"+f, "Status can report an empty "+f+" although ids are filed", st)
+						}
+					}
 				}
 			}
 			if o.Check(len(isSt) >= 1, "marker-status|"+f, "Status no longer reports "+f, fnFirst(fn)) {
@@ -214,13 +225,21 @@ func alertStatusReportRule(o *Ob) {
 		n := 0
 		for _, st := range e.StoresToField(cv, "am/api/v2/models.AlertStatus", f) {
 			n++
-			v := e.X(cv, st.Val)
-			if strings.HasPrefix(v, "slice(&slicelit:[0]string") || strings.HasPrefix(v, "makeslice:[]string") {
-				// an empty list instead of null, only when there are no ids
-				o.Guarded(st, "convert-default|"+f, "replacing "+f+" by an empty list", LRe(`\(.*\.`+f+` == nil\)|\(len\(.*\.`+f+`\) == 0\)`, true))
-				continue
+			none := LRe(`\(.*\.`+f+` == nil\)|\(len\(.*\.`+f+`\) == 0\)`, true)
+			alts := AltsOf(st.Val)
+			for _, a := range alts {
+				v := e.X(cv, a.V)
+				if strings.HasPrefix(v, "slice(&slicelit:[0]string") || strings.HasPrefix(v, "makeslice:[]string") {
+					// an empty list instead of null, only when there are no ids
+					if len(alts) > 1 {
+						o.Check(e.AltUnder(a, none), "convert-default|"+f, "replacing "+f+" by an empty list although ids are present", st)
+					} else {
+						o.Guarded(st, "convert-default|"+f, "replacing "+f+" by an empty list", none)
+					}
+					continue
+				}
+				o.Check(strings.HasSuffix(v, "AlertStatus."+f) || v == "p1."+f, "convert-field|"+f, "the answer's "+f+" must be the status's "+f+", is "+clip(v), st)
 			}
-			o.Check(strings.HasSuffix(v, "AlertStatus."+f) || v == "p1."+f, "convert-field|"+f, "the answer's "+f+" must be the status's "+f+", is "+v, st)
 		}
 		o.Check(n >= 1, "convert|"+f, "the answer no longer carries "+f, fnFirst(cv))
 	}
@@ -250,8 +269,10 @@ func alertStatusReportRule(o *Ob) {
 		o.Site(up, "reload installs the mute callback")
 		im := o.One(e.Calls(cb, "(*am/inhibit.Inhibitor).Mutes"), "callback-inhibitor", "the callback must ask the inhibitor", cb)
 		sm := o.One(e.Calls(cb, "(*am/silence.Silencer).Mutes"), "callback-silencer", "the callback must ask the silencer", cb)
-		o.Check(e.Arg(im, 0) == "(*sync/atomic.Pointer[T]).Load(^recv.inhibitor)" && e.Arg(im, 1) == "ctx" && e.Arg(im, 2) == "p1", "callback-inhibitor-args", "the current inhibitor must be asked about the given labels in the given context", im)
-		o.Check(e.Arg(sm, 0) == "^recv.silencer" && e.Arg(sm, 1) == "ctx" && e.Arg(sm, 2) == "p1", "callback-silencer-args", "the silencer must be asked about the given labels in the given context", sm)
+		// the callback is a literal closing over the reloader or one of its methods
+		unfree := func(s string) string { return strings.ReplaceAll(s, "^", "") }
+		o.Check(unfree(e.Arg(im, 0)) == "(*sync/atomic.Pointer[T]).Load(recv.inhibitor)" && e.Arg(im, 1) == "ctx" && e.Arg(im, 2) == "p1", "callback-inhibitor-args", "the current inhibitor must be asked about the given labels in the given context", im)
+		o.Check(unfree(e.Arg(sm, 0)) == "recv.silencer" && e.Arg(sm, 1) == "ctx" && e.Arg(sm, 2) == "p1", "callback-silencer-args", "the silencer must be asked about the given labels in the given context", sm)
 		for _, c := range []ssa.CallInstruction{im, sm} {
 			o.Check(len((&Walk{Fn: cb, Barrier: IsInstr(c)}).FromEntry().Returns()) == 0, "callback-skip|"+calleeName(c.Common()), "the callback can return without asking "+calleeName(c.Common()), c)
 		}
